@@ -150,7 +150,7 @@ func verifC02wsSymDims(r int, empty bool) verifC02wsDims {
 func VerifC02_WorkspaceQuery() { verifC02wsQuery(false) }
 
 // VerifC02_WorkspaceQueryEmpty: the same for shapes with a zero dimension (quick returns).
-// OPEN VIOLATIONS F8, F9 (see notes/C02.md).
+// This harness found findings F8, F9 (fixed in /repo 2241050), see notes/C02.md.
 func VerifC02_WorkspaceQueryEmpty() { verifC02wsQuery(true) }
 
 func verifC02wsQuery(empty bool) {
@@ -218,7 +218,7 @@ func verifC02wsData(n, seed int) []float64 {
 // Also run with the queried optimum and optimum+1.
 func VerifC02_WorkspaceMinimum() { verifC02wsRun(false) }
 
-// VerifC02_WorkspaceMinimumEmpty: the same for shapes with a zero dimension. OPEN VIOLATION F8.
+// VerifC02_WorkspaceMinimumEmpty: the same for shapes with a zero dimension. Found finding F8 (fixed).
 func VerifC02_WorkspaceMinimumEmpty() { verifC02wsRun(true) }
 
 func verifC02wsRun(empty bool) {
